@@ -1077,6 +1077,8 @@ struct BatchState {
   labels: BTreeMap<ord::InscriptionId, String>,
   small: Vec<OutPoint>,
   rune_no: usize,
+  /// an inscription that is nobody's parent, for reinscription
+  junk: ord::InscriptionId,
 }
 
 impl Ctx {
@@ -1134,6 +1136,26 @@ impl Ctx {
         yaml.push_str(&format!("postage: {p}\n"));
       }
     }
+    // same-sat on a chosen satpoint: a cardinal output, or (reinscribe) the sat of an inscription the wallet holds
+    let mut subject: Option<OutPoint> = None;
+    if mode == "same-sat" && !etch {
+      match self.rng.gen_range(0..4) {
+        0 if !bs.small.is_empty() => {
+          let o = bs.small.remove(0);
+          yaml.push_str(&format!("satpoint: {o}:0\n"));
+          subject = Some(o);
+        }
+        1 => {
+          if let Some(sp) = self.w.index.get_inscription_satpoint_by_id(bs.junk)? {
+            if self.wallet_utxos().contains_key(&sp.outpoint) {
+              yaml.push_str(&format!("satpoint: {sp}\nreinscribe: true\n"));
+              subject = Some(sp.outpoint);
+            }
+          }
+        }
+        _ => {}
+      }
+    }
     let mut rune_name = String::new();
     if etch {
       bs.rune_no += 1;
@@ -1179,6 +1201,11 @@ impl Ctx {
     }
     let path = self.w.data.path().join(format!("batch{n_op}.yaml"));
     std::fs::write(&path, &yaml)?;
+    // the sat the batch was told to inscribe (first sat of the chosen satpoint), from the explorer's sat ranges
+    let subject_sat: Option<u64> = match subject {
+      Some(o) => self.w.get_json(&format!("/output/{o}"))?["sat_ranges"].as_array().and_then(|r| r.first()).and_then(|r| r[0].as_u64()),
+      None => None,
+    };
     // before
     let (inv, utxos_before) = self.inventory()?;
     let non_cardinal: std::collections::BTreeSet<OutPoint> = utxos_before
@@ -1200,7 +1227,7 @@ impl Ctx {
     let _ = inv;
     let effective_postages: Vec<u64> = if mode == "satpoints" { sat_values.clone() } else { (0..count).map(|_| postage.unwrap_or(10_000)).collect() };
     let mut row = json!({"event": "Batch", "tag": self.tag, "n": n_op, "mode": mode, "count": count, "postages": effective_postages,
-      "nparents": par_idx.len(), "parents": par_idx.iter().map(|i| bs.parents[*i].0.clone()).collect::<Vec<_>>(),
+      "subject": subject.is_some(), "nparents": par_idx.len(), "parents": par_idx.iter().map(|i| bs.parents[*i].0.clone()).collect::<Vec<_>>(),
       "etch": etch, "premine": premine, "ok": out.ok, "panic": out.stderr.contains("panicked"),
       "err": if out.ok { "".to_string() } else { out.stderr.lines().next().unwrap_or("").chars().take(160).collect::<String>() }});
     if !out.ok {
@@ -1246,8 +1273,9 @@ impl Ctx {
       indexed.push(match (entry, sp) {
         (Some(e), Some(sp)) => json!({"exists": true, "sameTx": sp.outpoint.txid == reveal, "vout": sp.outpoint.vout, "off": sp.offset,
           "parents": parents, "owner": script_at(&sp).map(|s| self.owner(&s)).unwrap_or("none".into()), "num": e.inscription_number,
-          "apiSatpoint": info["satpoint"].as_str().unwrap_or("") == sp.to_string()}),
-        _ => json!({"exists": false, "sameTx": false, "vout": -1, "off": -1, "parents": [], "owner": "none", "num": 0, "apiSatpoint": false}),
+          "apiSatpoint": info["satpoint"].as_str().unwrap_or("") == sp.to_string(),
+          "onSubjectSat": subject_sat.is_none() || info["sat"].as_u64() == subject_sat}),
+        _ => json!({"exists": false, "sameTx": false, "vout": -1, "off": -1, "parents": [], "owner": "none", "num": 0, "apiSatpoint": false, "onSubjectSat": false}),
       });
       bs.labels.insert(id, format!("n{n_op}_{i}"));
     }
@@ -1266,8 +1294,12 @@ impl Ctx {
     }
     row["parentsAfter"] = json!(parents_after);
     if let Some(ct) = &commit_tx {
-      row["commitIns"] = json!(ct.input.iter().map(|i| json!({"o": self.label(i.previous_output), "nc": non_cardinal.contains(&i.previous_output),
-        "wallet": utxos_before.contains_key(&i.previous_output)})).collect::<Vec<_>>());
+      // ownership by script: blocks mined while an etching batch waits add coinbases that the snapshot does not have
+      row["commitIns"] = json!(ct.input.iter().map(|i| {
+        let owned = self.tx_of(i.previous_output.txid).and_then(|t| t.output.get(i.previous_output.vout as usize).map(|o| self.is_wallet_script(&o.script_pubkey))).unwrap_or(false);
+        json!({"o": self.label(i.previous_output), "nc": non_cardinal.contains(&i.previous_output) && Some(i.previous_output) != subject, "wallet": owned,
+          "subject": Some(i.previous_output) == subject})
+      }).collect::<Vec<_>>());
     }
     if let Some(rt) = &reveal_tx {
       row["revealIns"] = json!(rt.input.iter().map(|i| json!({"o": self.label(i.previous_output), "nc": non_cardinal.contains(&i.previous_output),
@@ -1314,7 +1346,7 @@ pub fn batch_trace(seed: u64, worlds: usize, ops: usize, out: &str) -> Result<()
     let premines = c.etch(1, 60)?;
     let p1 = c.inscribe(20_000)?;
     let p2 = c.inscribe(33_000)?;
-    let _junk = c.inscribe(15_000)?;
+    let junk = c.inscribe(15_000)?;
     // small cardinals for satpoints mode
     let (cb, v) = c.take_cardinal(BTC)?;
     let mut outs = Vec::new();
@@ -1328,7 +1360,9 @@ pub fn batch_trace(seed: u64, worlds: usize, ops: usize, out: &str) -> Result<()
     c.w.mine(1)?;
     c.distribute(premines, 60, 2, None)?;
     c.w.sync()?;
-    let mut bs = BatchState { parents: Vec::new(), labels: BTreeMap::new(), small: (0..10).map(|k| OutPoint { txid: stx, vout: k }).collect(), rune_no: 0 };
+    let junk_id = c.w.index.get_inscriptions_for_output(junk)?.unwrap_or_default()[0];
+    let mut bs = BatchState { parents: Vec::new(), labels: BTreeMap::new(), small: (0..10).map(|k| OutPoint { txid: stx, vout: k }).collect(), rune_no: 0, junk: junk_id };
+    bs.labels.insert(junk_id, "J".into());
     for (l, o) in [("P1", p1), ("P2", p2)] {
       let id = c.w.index.get_inscriptions_for_output(o)?.unwrap_or_default()[0];
       bs.parents.push((l.to_string(), id));
